@@ -31,8 +31,12 @@ Obs == IF Concrete
          THEN [ranges |-> RangeSet(blocks), count |-> Count(blocks), first |-> First(blocks), rc |-> RangeCount(blocks)]
          ELSE LET r == IvRuns(ivs) IN
               [ranges |-> r, count |-> SumRuns(r), first |-> IF r = <<>> THEN 0 ELSE r[1].from, rc |-> Len(r)]
-Emit == PrintT("EDGE " \o ToJson([f |-> <<ivs, nops>>, a |-> act', t |-> <<ivs', nops'>>, o |-> Obs']))
-EmitInit == PrintT("INIT " \o ToJson([t |-> <<ivs, nops>>, o |-> Obs]))
+\* EDGE lines carry states and action only, STATE lines (an invariant: once per distinct state) the
+\* observation: primed expressions are evaluated without caching and would dominate the run
+SKey == IF Concrete THEN <<set, nops>> ELSE <<ivs, nops>>
+Emit == PrintT("EDGE " \o ToJson([f |-> SKey, a |-> act', t |-> SKey']))
+StateOut == PrintT("STATE " \o ToJson([s |-> SKey, o |-> Obs]))
+EmitInit == PrintT("INIT " \o ToJson([t |-> SKey]))
 InitE == Init /\ EmitInit
 
 CaseOf(s) == LET I == IvsOf(s)  r == IvRuns(I) IN
